@@ -186,7 +186,7 @@ Emitted(o, p, e) ==
          ELSE LET op == OpAt(o, e.p)
                   \* ... or the script is at a select one of whose filters calls an effect builtin
                   inFilter == op.op = "select" /\ \E i \in 1..Len(op.srcs) :
-                                 op.srcs[i].k = "recv" /\ op.srcs[i].body \in {"effect", "effect_fail"}
+                                 op.srcs[i].k = "recv" /\ op.srcs[i].body \in {"effect", "effect_fail", "effect_read"}
               IN Chk(o, op.op \in {"open", "use", "close"} \/ inFilter, "C03", "ScriptFollowed",
                      <<"effect requested where the script has", op.op, e.p>>)
     [] OTHER -> o
